@@ -152,7 +152,7 @@ class PartitionedArray(object):
 
         batch = [contents[0]]
         for x in contents[1:]:
-            if batch[-1].mergeable(x, mergebool=False):
+            if all(b.mergeable(x, mergebool=False) for b in batch):
                 batch.append(x)
             else:
                 collapsed = batch[0].mergemany(batch[1:])
